@@ -27,6 +27,7 @@ def run(chk):
         pc = None
     if pc is not None and hasattr(pc, "run_c07_policy_part"):
         pc.run_c07_policy_part(chk, ok)
+        pc.run_c07_interleave_part(chk, ok)
 
 
 def replay(path):
@@ -35,4 +36,6 @@ def replay(path):
     if r.get("driver") == "breaker_driver":
         return bc.replay_breaker(path)
     import policy_common as pc
+    if "scenario" in r:
+        return pc.replay_interleaving(path)
     return pc.replay(path)
